@@ -1,94 +1,95 @@
+(* NOTE: a model that mentions Coq's string type extracts a type named string, which shadows OCaml's after
+   open Model; this file therefore writes Stdlib.String.t.  Drivers should do the same.  *)
 (* Shared glue between the extracted models (module Model) and the line-oriented
    drivers.  Concatenated in front of each ocaml/drv_cNN.ml by build_model.sh.
    Protocol: one case per input line, fields separated by TAB, every string field
    percent-encoded (so TAB, newline, ',', ';', '|' never occur raw inside a field);
    one result line per case. *)
-open Model
 
-let ascii_of_char (c : char) : ascii =
+let ascii_of_char (c : char) : Model.ascii =
   let n = Char.code c in
   let b i = (n lsr i) land 1 = 1 in
-  Ascii (b 0, b 1, b 2, b 3, b 4, b 5, b 6, b 7)
+  Model.Ascii (b 0, b 1, b 2, b 3, b 4, b 5, b 6, b 7)
 
-let char_of_ascii (a : ascii) : char =
+let char_of_ascii (a : Model.ascii) : char =
   match a with
-  | Ascii (b0, b1, b2, b3, b4, b5, b6, b7) ->
+  | Model.Ascii (b0, b1, b2, b3, b4, b5, b6, b7) ->
     let v b i = if b then 1 lsl i else 0 in
     Char.chr (v b0 0 + v b1 1 + v b2 2 + v b3 3 + v b4 4 + v b5 5 + v b6 6 + v b7 7)
 
-let str_of_string (s : string) : ascii list =
-  List.init (String.length s) (fun i -> ascii_of_char s.[i])
+let str_of_string (s : Stdlib.String.t) : Model.ascii list =
+  Stdlib.List.init (Stdlib.String.length s) (fun i -> ascii_of_char s.[i])
 
-let string_of_str (l : ascii list) : string =
+let string_of_str (l : Model.ascii list) : Stdlib.String.t =
   let b = Buffer.create 16 in
-  List.iter (fun a -> Buffer.add_char b (char_of_ascii a)) l;
+  Stdlib.List.iter (fun a -> Buffer.add_char b (char_of_ascii a)) l;
   Buffer.contents b
 
-let rec nat_of_int (n : int) : nat = if n <= 0 then O else S (nat_of_int (n - 1))
-let rec int_of_nat (n : nat) : int = match n with O -> 0 | S m -> 1 + int_of_nat m
+let rec nat_of_int (n : int) : Model.nat = if n <= 0 then Model.O else S (nat_of_int (n - 1))
+let rec int_of_nat (n : Model.nat) : int = match n with Model.O -> 0 | Model.S m -> 1 + int_of_nat m
 
-let rec pos_of_int (n : int) : positive =
-  if n <= 1 then XH
-  else if n land 1 = 0 then XO (pos_of_int (n lsr 1))
-  else XI (pos_of_int (n lsr 1))
-let rec int_of_pos (p : positive) : int =
-  match p with XH -> 1 | XO q -> 2 * int_of_pos q | XI q -> 2 * int_of_pos q + 1
-let z_of_int (n : int) : z =
-  if n = 0 then Z0 else if n > 0 then Zpos (pos_of_int n) else Zneg (pos_of_int (- n))
-let int_of_z (x : z) : int =
-  match x with Z0 -> 0 | Zpos p -> int_of_pos p | Zneg p -> - (int_of_pos p)
-let n_of_int (n : int) : n = if n <= 0 then N0 else Npos (pos_of_int n)
-let int_of_n (x : n) : int = match x with N0 -> 0 | Npos p -> int_of_pos p
+let rec pos_of_int (n : int) : Model.positive =
+  if n <= 1 then Model.XH
+  else if n land 1 = 0 then Model.XO (pos_of_int (n lsr 1))
+  else Model.XI (pos_of_int (n lsr 1))
+let rec int_of_pos (p : Model.positive) : int =
+  match p with Model.XH -> 1 | Model.XO q -> 2 * int_of_pos q | Model.XI q -> 2 * int_of_pos q + 1
+let z_of_int (n : int) : Model.z =
+  if n = 0 then Model.Z0 else if n > 0 then Model.Zpos (pos_of_int n) else Model.Zneg (pos_of_int (- n))
+let int_of_z (x : Model.z) : int =
+  match x with Model.Z0 -> 0 | Model.Zpos p -> int_of_pos p | Model.Zneg p -> - (int_of_pos p)
+let n_of_int (n : int) : Model.n = if n <= 0 then Model.N0 else Model.Npos (pos_of_int n)
+let int_of_n (x : Model.n) : int = match x with Model.N0 -> 0 | Model.Npos p -> int_of_pos p
 
 (* percent-encoding: everything except [A-Za-z0-9_./-] is written %XX *)
-let enc (s : string) : string =
-  let b = Buffer.create (String.length s + 8) in
-  String.iter (fun c ->
+let enc (s : Stdlib.String.t) : Stdlib.String.t =
+  let b = Buffer.create (Stdlib.String.length s + 8) in
+  Stdlib.String.iter (fun c ->
     match c with
     | 'A'..'Z' | 'a'..'z' | '0'..'9' | '_' | '.' | '/' | '-' -> Buffer.add_char b c
     | _ -> Buffer.add_string b (Printf.sprintf "%%%02X" (Char.code c))) s;
   Buffer.contents b
 
-let dec (s : string) : string =
-  let b = Buffer.create (String.length s) in
-  let n = String.length s in
+let dec (s : Stdlib.String.t) : Stdlib.String.t =
+  let b = Buffer.create (Stdlib.String.length s) in
+  let n = Stdlib.String.length s in
   let i = ref 0 in
   while !i < n do
     if s.[!i] = '%' && !i + 2 < n + 0 then begin
-      Buffer.add_char b (Char.chr (int_of_string ("0x" ^ String.sub s (!i + 1) 2)));
+      Buffer.add_char b (Char.chr (int_of_string ("0x" ^ Stdlib.String.sub s (!i + 1) 2)));
       i := !i + 3
     end else begin Buffer.add_char b s.[!i]; incr i end
   done;
   Buffer.contents b
 
-let enc_str (l : ascii list) : string = enc (string_of_str l)
-let dec_str (s : string) : ascii list = str_of_string (dec s)
+let enc_str (l : Model.ascii list) : Stdlib.String.t = enc (string_of_str l)
+let dec_str (s : Stdlib.String.t) : Model.ascii list = str_of_string (dec s)
 
 (* lists: elements encoded, joined by the given separator; the empty list is "" and
    a list holding one empty string is written with the marker "%" alone *)
-let split_sep (sep : char) (s : string) : string list =
-  if s = "" then [] else String.split_on_char sep s
-let enc_list (sep : char) (f : 'a -> string) (l : 'a list) : string =
-  String.concat (String.make 1 sep) (List.map (fun x -> let e = f x in if e = "" then "%" else e) l)
-let dec_list (sep : char) (f : string -> 'a) (s : string) : 'a list =
-  List.map (fun x -> if x = "%" then f "" else f x) (split_sep sep s)
+let split_sep (sep : char) (s : Stdlib.String.t) : Stdlib.String.t list =
+  if s = "" then [] else Stdlib.String.split_on_char sep s
+let enc_list (sep : char) (f : 'a -> Stdlib.String.t) (l : 'a list) : Stdlib.String.t =
+  Stdlib.String.concat (Stdlib.String.make 1 sep) (Stdlib.List.map (fun x -> let e = f x in if e = "" then "%" else e) l)
+let dec_list (sep : char) (f : Stdlib.String.t -> 'a) (s : Stdlib.String.t) : 'a list =
+  Stdlib.List.map (fun x -> if x = "%" then f "" else f x) (split_sep sep s)
 
-let enc_strlist sep (l : ascii list list) = enc_list sep enc_str l
-let dec_strlist sep (s : string) : ascii list list = dec_list sep dec_str s
+let enc_strlist sep (l : Model.ascii list list) = enc_list sep enc_str l
+let dec_strlist sep (s : Stdlib.String.t) : Model.ascii list list = dec_list sep dec_str s
 
-let bool_of_field (s : string) : bool = (s = "1" || s = "true" || s = "T")
-let field_of_bool (b : bool) : string = if b then "1" else "0"
+let bool_of_field (s : Stdlib.String.t) : bool = (s = "1" || s = "true" || s = "T")
+let field_of_bool (b : bool) : Stdlib.String.t = if b then "1" else "0"
 
-let err_name (e : errkind) : string =
+let err_name (e : Model.errkind) : Stdlib.String.t =
   match e with
-  | Unsortable -> "Unsortable" | Crash -> "Crash" | NotFound -> "NotFound"
-  | Refused -> "Refused" | BadTable -> "BadTable" | OutOfFuel -> "OutOfFuel"
-  | Undefined -> "Undefined"
+  | Model.Unsortable -> "Model.Unsortable" | Model.Crash -> "Model.Crash" | Model.NotFound -> "Model.NotFound"
+  | Model.Refused -> "Model.Refused" | Model.BadTable -> "Model.BadTable" | Model.OutOfFuel -> "Model.OutOfFuel"
+  | Model.Undefined -> "Model.Undefined"
 
-let fields (line : string) : string array = Array.of_list (String.split_on_char '\t' line)
+let fields (line : Stdlib.String.t) : Stdlib.String.t array = Array.of_list (Stdlib.String.split_on_char '\t' line)
 
 (* run [handle] on every line of stdin; a raised exception is reported on the line *)
-let main_loop (handle : string array -> string) : unit =
+let main_loop (handle : Stdlib.String.t array -> Stdlib.String.t) : unit =
   (try
     while true do
       let line = input_line stdin in
@@ -97,3 +98,6 @@ let main_loop (handle : string array -> string) : unit =
     done
   with End_of_file -> ());
   flush stdout
+
+(* the drivers that follow use the model's names unqualified *)
+open Model
